@@ -482,8 +482,8 @@ def handle (p : Profile) (line : String) : String :=
     | "HBUILD" => hbuildCase p t
     | "CLONE" => cloneCase p t
     | "ELFNAME" => elfnameCase t
-    | "HSWEEP" => (match t with | _ :: hx :: _ => HSweep.hsweep p (unhex hx) | _ => "bad-case")
-    | "SWEEP" => (match t with | _ :: hx :: _ => Sweep.sweep p (unhex hx) | _ => "bad-case")
+    | "HSWEEP" => (match t with | _ :: hx :: _ => (HSweep.hsweep p (unhex hx)).render | _ => "bad-case")
+    | "SWEEP" => (match t with | _ :: hx :: _ => (Sweep.sweep p (unhex hx)).render | _ => "bad-case")
     | _ => s!"unknown-family:{f}"
 
 end Mb2.Driver
